@@ -10,6 +10,9 @@ open RV.C14
 #print axioms refine_equivariant
 #print axioms canon_iso_partial
 #print axioms canon_sound_partial
+#print axioms refine_terminates
+#print axioms refine_refines
+#print axioms refineInit_runs
 #print axioms canonSearch_equivariant
 #print axioms canonSearch_complete
 #print axioms canonSearch_sound
